@@ -4,6 +4,8 @@ package fmtcheck
 
 import (
 	"bytes"
+	"crypto/sha256"
+	"encoding/json"
 	"fmt"
 	"go/ast"
 	goparser "go/parser"
@@ -11,6 +13,7 @@ import (
 	"io"
 	"log/slog"
 	"os"
+	"os/exec"
 	"path/filepath"
 	"reflect"
 	"regexp"
@@ -555,8 +558,126 @@ func firstLine(s string) string {
 	return s
 }
 
+// orderPass is the body of a fresh process: it formats every input once, sequentially, in the given order, and writes
+// one hash per input (and the full text of the inputs listed in VERIF_FMT_DUMP) to a file.
+func orderPass(order, outFile string) {
+	full := os.Getenv("VERIF_TIER") == "thorough"
+	inputs := Inputs(full)
+	dump := map[int]bool{}
+	for _, f := range strings.Fields(os.Getenv("VERIF_FMT_DUMP")) {
+		n, _ := strconv.Atoi(f)
+		dump[n] = true
+	}
+	hashes := make([]string, len(inputs))
+	texts := map[int]string{}
+	for k := range inputs {
+		i := k
+		if order == "reverse" {
+			i = len(inputs) - 1 - k
+		}
+		out, err := Format(inputs[i].Src)
+		if err != nil {
+			out = "ERR:" + err.Error()
+		}
+		hashes[i] = fmt.Sprintf("%x", sha256.Sum256([]byte(out)))
+		if dump[i] {
+			texts[i] = out
+		}
+	}
+	b, _ := json.Marshal(map[string]any{"hashes": hashes, "texts": texts})
+	if err := os.WriteFile(outFile, b, 0o644); err != nil {
+		fmt.Fprintln(os.Stderr, err)
+		os.Exit(2)
+	}
+}
+
+// freshProcessOrders: a memo that lives as long as the process makes the first formatting of a value win for good, so
+// histories inside one process cannot show it. Two fresh processes format every input once, one in list order and one
+// in reverse order: every pair of inputs is met in both orders. `templ fmt` (a fresh process per run) and the
+// language server (one process, files in the order the user opens them) must agree whatever the order.
+func freshProcessOrders(run *vlib.Run, id string, inputs []Input, changed, notFixed *atomic.Int64) {
+	self, err := os.Executable()
+	if err != nil {
+		vlib.Fatal("%v", err)
+	}
+	type res struct {
+		Hashes []string          `json:"hashes"`
+		Texts  map[string]string `json:"texts"`
+	}
+	pass := func(order, dump string) res {
+		out := filepath.Join(tgen.Scratch(), "order-"+order+".json")
+		c := exec.Command(self, "orderpass", order, out)
+		c.Env = append(os.Environ(), "VERIF_FMT_DUMP="+dump)
+		c.Stderr = os.Stderr
+		if err := c.Run(); err != nil {
+			vlib.Fatal("order pass %s: %v", order, err)
+		}
+		b, err := os.ReadFile(out)
+		if err != nil {
+			vlib.Fatal("%v", err)
+		}
+		os.Remove(out)
+		var r res
+		if err := json.Unmarshal(b, &r); err != nil || len(r.Hashes) != len(inputs) {
+			vlib.Fatal("order pass %s: bad result (%v, %d hashes for %d inputs)", order, err, len(r.Hashes), len(inputs))
+		}
+		return r
+	}
+	var fw, rv res
+	var wg sync.WaitGroup
+	wg.Add(2)
+	go func() { defer wg.Done(); fw = pass("forward", "") }()
+	go func() { defer wg.Done(); rv = pass("reverse", "") }()
+	wg.Wait()
+	var differing []string
+	for i := range inputs {
+		if fw.Hashes[i] != rv.Hashes[i] {
+			differing = append(differing, strconv.Itoa(i))
+		}
+	}
+	run.Cov["fresh_process_order_passes"] = 2
+	run.Cov["inputs_formatted_differently_in_another_order"] = len(differing)
+	if len(differing) == 0 {
+		return
+	}
+	if len(differing) > 200 {
+		differing = differing[:200]
+	}
+	wg.Add(2)
+	go func() { defer wg.Done(); fw = pass("forward", strings.Join(differing, " ")) }()
+	go func() { defer wg.Done(); rv = pass("reverse", strings.Join(differing, " ")) }()
+	wg.Wait()
+	for _, d := range differing {
+		i, _ := strconv.Atoi(d)
+		in := inputs[i]
+		a, b := fw.Texts[d], rv.Texts[d]
+		if id == "C09" {
+			run.Violation("formatting-depends-on-history", fmt.Sprintf("%s: a fresh process that formats the inputs in list order and one that formats them in reverse order disagree on this input\nin list order:\n%s\nin reverse order:\n%s", in.Name, a, b), map[string]any{"input": in.Name, "source": in.Src, "list_order": a, "reverse_order": b})
+			continue
+		}
+		goA, _, tf, err := tgen.Generate(in.Src, "x.templ")
+		if err != nil {
+			continue
+		}
+		for _, out := range []string{a, b} {
+			out := out
+			if strings.HasPrefix(out, "ERR:") {
+				run.Violation("format-error", fmt.Sprintf("%s: formatting failed in a process that formatted other inputs before: %s", in.Name, out), map[string]any{"input": in.Name, "source": in.Src})
+				continue
+			}
+			checkOne(run, id, in, "formatted in a fresh process after other inputs: ", func(string) (string, error) { return out, nil }, goA, tf, changed, notFixed)
+		}
+	}
+}
+
 // Run executes the check for property id ("C08" or "C09").
 func Run(id string) {
+	for i, a := range os.Args {
+		if a == "orderpass" && i+2 < len(os.Args) {
+			orderPass(os.Args[i+1], os.Args[i+2])
+			return
+		}
+	}
 	run := vlib.Start(id, "exploration")
 	inputs := Inputs(run.Thorough())
 	var accepted, changed, notFixed, cmdChecked atomic.Int64
@@ -606,6 +727,7 @@ func Run(id string) {
 	}
 	wg.Wait()
 	filesMode(run, id, inputs, acceptedAt, &changed, &notFixed)
+	freshProcessOrders(run, id, inputs, &changed, &notFixed)
 	run.Cov["formatted_through_templ_fmt_stdin"] = cmdChecked.Load()
 	if id == "C09" {
 		// history independence: format-on-save (a long-lived process that has formatted other files before) and a
